@@ -5,9 +5,10 @@ Everything is a corollary of the refinement theorem `C02.C02_refines`, which is 
 arbitrary scope `[a, b)`, plus the fact that the specification's position lists concatenate.
 -/
 import EspadaVerif.Props.C02
+import EspadaVerif.Lemmas.IterCorollaries
 
 namespace EspadaVerif.C04
-open EspadaVerif Spec C02
+open EspadaVerif Spec C02 EspadaVerif.IterLemmas
 
 variable {W : Type}
 
@@ -40,13 +41,55 @@ theorem C04_scoped (ops : WOps W) (flop : List Card) (ranges : List (List (Combo
 `None` and leave the iterator unchanged. -/
 theorem C04_exhausted (ops : WOps W) (sEnd : IterState W) (hend : next ops sEnd = .ok (none, sEnd)) (k : Nat) :
     nextN ops k sEnd = .ok (List.replicate k none, sEnd) := by
-  sorry
+  induction k with
+  | zero => rfl
+  | succ k ih =>
+    simp only [nextN, hend, ih, List.replicate_succ]
 
 /-- the specification's deals of consecutive scopes concatenate -/
 theorem deals_append (flop : List Nat) (entries : List (List (Nat × Nat × W))) (a b c : Nat × Nat)
     (hab : ValidScope a b) (hbc : ValidScope b c) :
     deals flop entries a b ++ deals flop entries b c = deals flop entries a c := by
-  sorry
+  unfold deals
+  simp only []
+  rw [← List.flatMap_append,
+    positionsBetween_append hab.to_valid hbc.ordered _ a rfl hab.from_valid hab.ordered]
+
+/-- an empty scope has no deal -/
+theorem deals_self (flop : List Nat) (entries : List (List (Nat × Nat × W))) (p : Nat × Nat) :
+    deals flop entries p p = [] := by
+  unfold deals
+  simp only []
+  rw [positionsBetween_self]
+  rfl
+
+/-- `C04_chain` together with the validity of the accumulated scope, from a valid start -/
+theorem chain_aux (flop : List Nat) (entries : List (List (Nat × Nat × W))) :
+    ∀ (cuts : List (Nat × Nat)) (p₀ : Nat × Nat), validPos p₀ = true →
+      (∀ xy ∈ (p₀ :: cuts).zip cuts, ValidScope xy.1 xy.2) →
+      ((p₀ :: cuts).zip cuts).flatMap (fun xy => deals flop entries xy.1 xy.2)
+          = deals flop entries p₀ ((p₀ :: cuts).getLast (by simp))
+        ∧ ValidScope p₀ ((p₀ :: cuts).getLast (by simp)) := by
+  intro cuts
+  induction cuts with
+  | nil =>
+    intro p₀ hv _
+    refine ⟨?_, ⟨hv, hv, posLe_refl p₀⟩⟩
+    simp only [List.zip_nil_right, List.flatMap_nil, List.getLast_singleton]
+    exact (deals_self flop entries p₀).symm
+  | cons c cs ih =>
+    intro p₀ hv hchain
+    have h0 : ValidScope p₀ c := hchain (p₀, c) (by simp)
+    obtain ⟨ih1, ih2⟩ := ih c h0.to_valid (fun xy hxy => hchain xy (by
+      simp only [List.zip_cons_cons, List.mem_cons]
+      exact Or.inr hxy))
+    have hlast : (p₀ :: c :: cs).getLast (by simp) = (c :: cs).getLast (by simp) :=
+      List.getLast_cons_cons
+    rw [hlast]
+    refine ⟨?_, ⟨hv, ih2.to_valid, posLe_trans h0.ordered ih2.ordered⟩⟩
+    simp only [List.zip_cons_cons, List.flatMap_cons]
+    rw [ih1]
+    exact deals_append flop entries p₀ c _ h0 ih2
 
 /-- **C04 (chain).** Any chain of scopes in which each starts where the previous one ended yields, piece after
 piece, exactly the deals of the scope from the first start to the last end: every showdown of the full
@@ -55,17 +98,27 @@ theorem C04_chain (flop : List Nat) (entries : List (List (Nat × Nat × W))) (p
     (hchain : ∀ xy ∈ (p₀ :: cuts).zip cuts, ValidScope xy.1 xy.2) :
     ((p₀ :: cuts).zip cuts).flatMap (fun xy => deals flop entries xy.1 xy.2)
       = deals flop entries p₀ ((p₀ :: cuts).getLast (by simp)) := by
-  sorry
+  cases cuts with
+  | nil =>
+    simp only [List.zip_nil_right, List.flatMap_nil, List.getLast_singleton]
+    exact (deals_self flop entries p₀).symm
+  | cons c cs =>
+    have h0 : ValidScope p₀ c := hchain (p₀, c) (by simp)
+    exact (chain_aux flop entries (c :: cs) p₀ h0.from_valid hchain).1
 
 /-- the unscoped evaluator is the one scoped from the first position to the terminal -/
 theorem C04_default_scope (flop : List Card) (ranges : List (List (Combo × W))) :
     Evaluator.new (flop.map some ++ [none, none]) ranges = mkEvaluator flop ranges (0, 1) (48, 49) := by
-  sorry
+  rfl
 
 /-- **C04 (re-scoping).** A later `scope()` call replaces an earlier one. -/
 theorem C04_rescope (e e' : Evaluator W) (x y : Nat × Nat × Nat × Nat) (dbg : Bool)
     (h1 : e.scope x.1 x.2.1 x.2.2.1 x.2.2.2 dbg = .ok e') :
     e'.scope y.1 y.2.1 y.2.2.1 y.2.2.2 dbg = e.scope y.1 y.2.1 y.2.2.1 y.2.2.2 dbg := by
-  sorry
+  unfold Evaluator.scope at h1
+  split at h1
+  · cases h1
+  · cases h1
+    rfl
 
 end EspadaVerif.C04
